@@ -106,6 +106,8 @@ VM_EXECUTE["must_fire"] = {"member shadowed by local (left alone)": 1}
 
 SS_GENERATE = {'main': 'src/superscalar.cpp', 'keep': ['generateSuperscalar'], 'opaque_classes': ['Blake2Generator', 'MacroOp', 'SuperscalarInstructionInfo', 'DecoderBuffer'], 'drop_vars': ['\\bslot_\\w+', 'buffer\\d', 'decodeBuffers?', 'MacroOp::\\w+', 'MacroOp_\\w+', 'SuperscalarInstructionInfo::\\w+', 'DecoderBuffer::\\w+', '\\w+_ops_array', 'trace'], 'pre_rewrites': [{'name': 'trace output dropped', 'pattern': 'if \\(trace\\) std::cout.*?std::endl;', 'repl': ';'}, {'name': 'trace output dropped 2', 'pattern': 'if \\(trace\\) std::cout[^;\\n]*;', 'repl': ';'}, {'name': 'null instruction object', 'pattern': 'SuperscalarInstruction::Null', 'repl': 'rxv_null_instruction'}, {'name': 'default decoder buffer', 'pattern': '&DecoderBuffer::Default', 'repl': 'rxv_default_decoder_buffer'}, {'name': 'decoder: fetchNext', 'pattern': 'decodeBuffer->fetchNext\\(currentInstruction\\.getType\\(\\), decodeCycle, mulCount, gen\\)', 'repl': 'rxv_db_fetchNext(decodeBuffer, rxv_cur_type(&currentInstruction), decodeCycle, mulCount, &gen)'}, {'name': 'decoder: slot count', 'pattern': 'decodeBuffer->getSize\\(\\)', 'repl': 'rxv_db_size(decodeBuffer)'}, {'name': 'decoder: slot sizes', 'pattern': 'decodeBuffer->getCounts\\(\\)\\[bufferIndex\\]', 'repl': 'rxv_db_count(decodeBuffer, bufferIndex)'}, {'name': 'decoder: index', 'pattern': 'decodeBuffer->getIndex\\(\\)', 'repl': 'rxv_db_index(decodeBuffer)'}, {'name': 'instruction: macro-op count', 'pattern': 'currentInstruction\\.getInfo\\(\\)\\.getSize\\(\\)', 'repl': 'rxv_cur_size(&currentInstruction)'}, {'name': 'instruction: macro-op', 'pattern': 'currentInstruction\\.getInfo\\(\\)\\.getOp\\(macroOpIndex\\)', 'repl': '(*rxv_cur_op(&currentInstruction, macroOpIndex))'}, {'name': 'instruction: src op', 'pattern': 'currentInstruction\\.getInfo\\(\\)\\.getSrcOp\\(\\)', 'repl': 'rxv_cur_srcop(&currentInstruction)'}, {'name': 'instruction: dst op', 'pattern': 'currentInstruction\\.getInfo\\(\\)\\.getDstOp\\(\\)', 'repl': 'rxv_cur_dstop(&currentInstruction)'}, {'name': 'instruction: result op', 'pattern': 'currentInstruction\\.getInfo\\(\\)\\.getResultOp\\(\\)', 'repl': 'rxv_cur_resultop(&currentInstruction)'}, {'name': 'instruction: create', 'pattern': 'currentInstruction\\.createForSlot\\(gen, ', 'repl': 'rxv_cur_create(&currentInstruction, &gen, '}, {'name': 'instruction: select source', 'pattern': 'currentInstruction\\.selectSource\\(scheduleCycle, registers, gen\\)', 'repl': 'rxv_cur_select_src(&currentInstruction, scheduleCycle, registers, &gen)'}, {'name': 'instruction: select destination', 'pattern': 'currentInstruction\\.selectDestination\\(scheduleCycle, throwAwayCount > 0, registers, gen\\)', 'repl': 'rxv_cur_select_dst(&currentInstruction, scheduleCycle, throwAwayCount > 0, registers, &gen)'}, {'name': 'instruction: destination', 'pattern': 'currentInstruction\\.getDestination\\(\\)', 'repl': 'rxv_cur_dst(&currentInstruction)'}, {'name': 'instruction: group', 'pattern': 'currentInstruction\\.getGroup\\(\\)', 'repl': 'rxv_cur_group(&currentInstruction)'}, {'name': 'instruction: group par', 'pattern': 'currentInstruction\\.getGroupPar\\(\\)', 'repl': 'rxv_cur_grouppar(&currentInstruction)'}, {'name': 'instruction: type', 'pattern': 'currentInstruction\\.getType\\(\\)', 'repl': 'rxv_cur_type(&currentInstruction)'}, {'name': 'instruction: emit', 'pattern': 'currentInstruction\\.toInstr\\(prog\\(programSize\\+\\+\\)\\)', 'repl': 'rxv_cur_emit(&currentInstruction, &prog.programBuffer[programSize++])'}, {'name': 'macro-op: latency', 'pattern': 'mop\\.getLatency\\(\\)', 'repl': 'rxv_mop_latency(&mop)'}, {'name': 'macro-op: size', 'pattern': 'mop\\.getSize\\(\\)', 'repl': 'rxv_mop_size(&mop)'}, {'name': 'schedule probe', 'pattern': 'scheduleMop<false>\\(mop, ', 'repl': 'rxv_schedule_probe(&mop, '}, {'name': 'schedule commit', 'pattern': 'scheduleMop<true>\\(mop, ', 'repl': 'rxv_schedule_commit(&mop, '}, {'name': 'asic loop: instruction i', 'pattern': 'Instruction& instr = prog\\(i\\);', 'repl': 'Instruction& instr = (*rxv_emitted(&prog, i));'}, {'name': 'std::max', 'pattern': 'std::max\\(', 'repl': 'RXV_MAX('}, {'name': 'program setters', 'pattern': 'prog\\.setSize\\(programSize\\);', 'repl': 'prog.size = programSize;'}, {'name': 'program setters 2', 'pattern': 'prog\\.setAddressRegister\\(addressReg\\);', 'repl': 'prog.addrReg = addressReg;'}], 'global_rewrites': [{'name': 'ExecutionPort::type -> int', 'pattern': 'ExecutionPort::type', 'repl': 'int'}, {'name': 'ExecutionPort constants', 'pattern': 'ExecutionPort::(P\\w+|Null)', 'repl': 'ExecutionPort_\\1'}], 'must_fire': {'recipe rewrite: null instruction object': 1, 'recipe rewrite: default decoder buffer': 1, 'recipe rewrite: decoder: fetchNext': 1, 'recipe rewrite: decoder: slot count': 1, 'recipe rewrite: decoder: slot sizes': 1, 'recipe rewrite: decoder: index': 1, 'recipe rewrite: instruction: macro-op count': 1, 'recipe rewrite: instruction: macro-op': 1, 'recipe rewrite: instruction: src op': 1, 'recipe rewrite: instruction: dst op': 1, 'recipe rewrite: instruction: result op': 1, 'recipe rewrite: instruction: create': 1, 'recipe rewrite: instruction: select source': 1, 'recipe rewrite: instruction: select destination': 1, 'recipe rewrite: instruction: destination': 1, 'recipe rewrite: instruction: group': 1, 'recipe rewrite: instruction: group par': 1, 'recipe rewrite: instruction: type': 1, 'recipe rewrite: instruction: emit': 1, 'recipe rewrite: macro-op: latency': 1, 'recipe rewrite: macro-op: size': 1, 'recipe rewrite: schedule probe': 1, 'recipe rewrite: schedule commit': 1, 'recipe rewrite: asic loop: instruction i': 1, 'recipe rewrite: program setters': 1, 'recipe rewrite: program setters 2': 1}}
 
+SS_CREATE = {'main': 'src/superscalar.cpp', 'keep': ['SuperscalarInstruction::create', 'SuperscalarInstruction::reset', 'isZeroOrPowerOf2'], 'opaque_classes': ['MacroOp', 'SuperscalarInstructionInfo', 'DecoderBuffer', 'Blake2Generator'], 'drop_vars': ['SuperscalarInstruction::Null', 'SuperscalarInstruction_Null', '\\bslot_\\w+', 'buffer\\d', 'decodeBuffers?', '\\bNull\\b'], 'pre_rewrites': [{'name': 'instruction type query -> stand-in', 'pattern': 'info->getType\\(\\)', 'repl': 'rxv_info_type(info)'}, {'name': 'generator byte -> stand-in', 'pattern': 'gen\\.getByte\\(\\)', 'repl': 'rxv_gen_u8(&gen)'}, {'name': 'generator draw -> stand-in', 'pattern': 'gen\\.getUInt32\\(\\)', 'repl': 'rxv_gen_u32(&gen)'}], 'must_fire': {'recipe rewrite: generator draw -> stand-in': 5, 'recipe rewrite: generator byte -> stand-in': 2, 'recipe rewrite: instruction type query -> stand-in': 1}}
+
 # randomx_init_cache: std::string operations -> the abstract string model of the extractor prelude
 STR_OPS = [{"name": "local std::string -> rxv_string", "pattern": r"\bstd::string (\w+);", "repl": r"rxv_string \1 = { 0, 0, 0 };"},
            {"name": "std::string::assign -> rxv_string_assign", "pattern": r"\b(\w+(?:->\w+)*)\.assign\(", "repl": r"rxv_string_assign(&\1, "},
